@@ -71,16 +71,32 @@ def dynamic_edges(files, main):
     counters = {"calls": 0, "lines": 0}
     CO_OPTIMIZED = 0x1
 
+    src_lines = {rel: text.splitlines() for rel, text in files.items()}
+    def_cache = {}
+
     def defof(code):
         fn = code.co_filename
         if not fn.startswith(prefix):
             return None
+        # not keyed by the code object itself: code equality ignores co_filename
+        ckey = (fn, code.co_firstlineno, code.co_name, code.co_flags & CO_OPTIMIZED)
+        d = def_cache.get(ckey)
+        if d is not None:
+            return d
         rel = fn[len(prefix):]
         if code.co_name == "<module>":
-            return (rel, 0, "%unit_init")
-        if not (code.co_flags & CO_OPTIMIZED):
-            return (rel, code.co_firstlineno, "<classbody>" + code.co_name)
-        return (rel, code.co_firstlineno, code.co_name)
+            d = (rel, 0, "%unit_init")
+        elif not (code.co_flags & CO_OPTIMIZED):
+            d = (rel, code.co_firstlineno, "<classbody>" + code.co_name)
+        else:
+            # CPython reports the line of the first decorator; lian's method_decl row carries the line of `def`
+            line = code.co_firstlineno
+            lines = src_lines.get(rel, [])
+            while code.co_name != "<lambda>" and 0 < line <= len(lines) and lines[line - 1].lstrip().startswith("@"):
+                line += 1
+            d = (rel, line, code.co_name)
+        def_cache[ckey] = d
+        return d
 
     def prof(frame, event, arg):
         if event == "call":
@@ -237,6 +253,8 @@ def run_lian(files, enable_p2=False):
                 opn = row.operation
                 if opn == "method_decl":
                     name = str(row.name)
+                    if name.startswith("%mm"):
+                        name = "<lambda>"
                     st.methods[sid] = (rel, 0 if name == "%unit_init" else line, name)
                 elif opn == "class_decl":
                     st.classes[sid] = (rel, line, str(row.name))
@@ -282,6 +300,15 @@ def fmt_edge(e):
     return "%s --[%s:%d]--> %s" % (fmt_def(e[0]), e[1][0], e[1][1], fmt_def(e[2]))
 
 
+def kind_of(kinds, e):
+    k = kinds.get("%s:%d" % e[1])
+    if k is None:
+        return ("unlabelled", "-")
+    if isinstance(k, str):
+        return (k, "local")
+    return (k[0], k[1])
+
+
 def evaluate(case, dyn=None, st=None):
     """-> (list of (sig, what), info dict).  Never raises on a lian failure: that is reported as info['lian_exc']."""
     files = case["files"]
@@ -295,7 +322,7 @@ def evaluate(case, dyn=None, st=None):
     for e, parent in events:
         edges.setdefault(e, 0)
     info["dyn_edges"] = len(edges)
-    info["edge_kinds"] = sorted({kinds.get("%s:%d" % e[1], "unlabelled") for e in edges})
+    info["edge_kinds"] = sorted({kind_of(kinds, e) for e in edges})
     info["edges"] = edges
     if st is None:
         st = run_lian(files, enable_p2=bool(case.get("p2")))
@@ -331,19 +358,310 @@ def evaluate(case, dyn=None, st=None):
     info["secondary_missing"] = len(secondary)
     info["primary_missing"] = sorted(primary_missing)
     info["present"] = sum(1 for e in edges if e in st.sites)
+    tag = "missing-edge-p2" if case.get("p2") else "missing-edge"
     by_kind = {}
     for e in sorted(primary_missing):
-        k = kinds.get("%s:%d" % e[1], "unlabelled")
-        by_kind.setdefault(k, []).append(e)
-    for k, es in sorted(by_kind.items()):
-        out.append(((ID, "missing-edge", k),
-                    "dynamic call %s (kind %s) is in no stored path of call_paths_p3 (%d such edge(s) of this kind)" % (
-                        fmt_edge(es[0]), k, len(es))))
+        by_kind.setdefault(kind_of(kinds, e), []).append(e)
+    for (k, via), es in sorted(by_kind.items()):
+        out.append(((ID, tag, k, via),
+                    "dynamic call %s (kind %s, via %s%s) is in no stored path of call_paths_p3 (%d such edge(s) in this project)" % (
+                        fmt_edge(es[0]), k, via, ", --enable-p2" if case.get("p2") else "", len(es))))
+    tag = "callee-not-analysed-p2" if case.get("p2") else "callee-not-analysed"
     by_kind = {}
     for e in sorted(not_analysed):
-        k = kinds.get("%s:%d" % e[1], "unlabelled")
-        by_kind.setdefault(k, []).append(e)
-    for k, es in sorted(by_kind.items()):
-        out.append(((ID, "callee-not-analysed", k),
-                    "call site %s (kind %s) is stored in a path but no P3 frame was analysed under it" % (fmt_edge(es[0]), k)))
+        by_kind.setdefault(kind_of(kinds, e), []).append(e)
+    for (k, via), es in sorted(by_kind.items()):
+        out.append(((ID, tag, k, via),
+                    "call site %s (kind %s, via %s) is stored in a path but no P3 frame was analysed under it" % (
+                        fmt_edge(es[0]), k, via)))
     return out, info
+
+
+# ---------------------------------------------------------------------------------------------
+# calibration of the mapping conventions (hand-written programs under replays/C07/calibration-*.json)
+
+def edge_to_json(e):
+    return [list(e[0]), list(e[1]), list(e[2])]
+
+
+def edge_from_json(j):
+    return (tuple(j[0]), tuple(j[1]), tuple(j[2]))
+
+
+def check_calibration(case, dyn, st):
+    """-> list of mismatch messages (harness errors): the conventions by which CPython events and lian ids are
+    joined.  Only facts of the frontend (GIR) and of the storage format are asserted here; whether P3 FOUND an edge is
+    decided by the ordinary oracle."""
+    exp = case["expect"]
+    errs = []
+    if dyn["error"]:
+        errs.append("calibration program raised %s" % dyn["error"])
+    got_dyn = sorted({e for e, _ in dyn["events"]})
+    want_dyn = sorted(edge_from_json(j) for j in exp["dynamic"])
+    if got_dyn != want_dyn:
+        errs.append("dynamic edges differ: got %s want %s" % ([fmt_edge(e) for e in got_dyn if e not in want_dyn],
+                                                              [fmt_edge(e) for e in want_dyn if e not in got_dyn]))
+    if st.exc is not None:
+        errs.append("lian failed on calibration program: %s" % st.exc)
+        return errs
+    got_defs = sorted(st.methods.values())
+    want_defs = sorted(tuple(d) for d in exp["defs"])
+    if got_defs != want_defs:
+        errs.append("method_decl table differs: got %s want %s" % (got_defs, want_defs))
+    # every raw call site of every stored path must map (no entry marker, no foreign ids); callee may be a class_decl
+    for t in sorted(st.raw_sites):
+        if t[0] not in st.methods or t[1] not in st.stmt_line or (t[2] not in st.methods and t[2] not in st.classes):
+            errs.append("unmappable call site %r in call_paths_p3" % (t,))
+    # the pinned static call sites (conventions: constructor -> __init__, call line = start_row + 1, ...)
+    want_sites = sorted(edge_from_json(j) for j in exp.get("static_sites", []))
+    missing = [e for e in want_sites if e not in st.sites]
+    if missing and exp.get("static_sites_strict", False):
+        errs.append("pinned static call sites absent: %s" % [fmt_edge(e) for e in missing])
+    entry_defs = sorted(st.methods[e] for e in st.entry_points if e in st.methods)
+    if "entry_points" in exp and entry_defs != sorted(tuple(d) for d in exp["entry_points"]):
+        errs.append("entry points differ: got %s want %s" % (entry_defs, exp["entry_points"]))
+    return errs
+
+
+# ---------------------------------------------------------------------------------------------
+# running cases
+
+def slim(case):
+    return {"files": case["files"], "main": case.get("main", "main.py"), "kinds": case.get("kinds", {}),
+            "p2": bool(case.get("p2"))}
+
+
+def run_case(col, case, count=True):
+    """Execute one case, record labels and discrepancies into col.  Returns (out, info)."""
+    dyn = dynamic_edges(case["files"], case.get("main", "main.py"))
+    if dyn["error"]:
+        col.discards["program-raised:" + dyn["error"].split(":")[0]] += 1
+        return [], {"dyn_error": dyn["error"]}
+    out, info = evaluate(case, dyn=dyn)
+    if count:
+        col.case()
+    if info.get("lian_exc"):
+        exc = info["lian_exc"]
+        col.discrepancy((ID, "analysis-failed", exc.split(":")[0], "p2" if case.get("p2") else "default"),
+                        "lian raised %s on a generated project" % exc, slim(case))
+        return out, info
+    kinds = info["edge_kinds"]
+    for k in sorted({k for k, _ in kinds}):
+        col.label("kind:" + k)
+    for via in sorted({v for _, v in kinds}):
+        col.label("via:" + via)
+    col.label("files:%d" % len(case["files"]))
+    if case.get("p2"):
+        col.label("mode:enable-p2")
+    col.extra["dynamic_edges"] += info["dyn_edges"]
+    col.extra["dynamic_edges_present"] += info["present"]
+    col.extra["secondary_missing_edges"] += info["secondary_missing"]
+    col.extra["p3_frames"] += len(info["static"].frames)
+    if info["dyn_edges"] >= 3 and len({k for k, _ in kinds}) >= 2:
+        col.nontriv(common.jhash([case["files"], bool(case.get("p2"))]))
+        col.label("nontrivial")
+    for sig, what in out:
+        col.discrepancy(sig, what, slim(case))
+    return out, info
+
+
+def avoid_set():
+    """(kind, via) pairs the generator steps over: one per open known finding of the form
+    [C07, missing-edge, kind, via] (wildcards allowed)."""
+    av = set()
+    for e in common.load_known(ID):
+        sig = e.get("signature", [])
+        if e.get("status") == "open" and len(sig) == 4 and sig[1] == "missing-edge":
+            av.add((sig[2], sig[3]))
+    return sorted(av)
+
+
+def gen_shard(arg):
+    seed, n, avoid, p2_pct, extended = arg
+    import hypothesis
+    from hypothesis import settings, HealthCheck, strategies as st
+    from harness import c07_gen, lianrun
+    col = Collector()
+
+    @st.composite
+    def cases(draw):
+        case = draw(c07_gen.projects(avoid=avoid, extended=extended))
+        case["p2"] = bool(p2_pct) and draw(st.integers(0, 99)) < p2_pct
+        return case
+
+    @hypothesis.seed(seed)
+    @settings(max_examples=n, deadline=None, database=None, derandomize=False, report_multiple_bugs=False,
+              suppress_health_check=list(HealthCheck), phases=[hypothesis.Phase.generate])
+    @hypothesis.given(cases())
+    def prop(case):
+        for k, v in case.get("stepped", {}).items():
+            col.stepovers["C07/missing-edge/" + k] += v
+        out, info = run_case(col, case)
+        if len(col.samples) < 1 and not out and "dyn_edges" in info:
+            col.sample({"files": case["files"], "kinds": case["kinds"], "dynamic_edges": info["dyn_edges"],
+                        "present": info["present"]})
+
+    try:
+        prop()
+    finally:
+        lianrun.cleanup_scratch()
+    return col
+
+
+def check_case(case):
+    col = Collector()
+    out, info = run_case(col, case, count=False)
+    return out, info, col
+
+
+def replay(path):
+    rec = common.load_replay(path)
+    case = rec["case"]
+    out, info, col = check_case(case)
+    if case.get("calibration"):
+        dyn = dynamic_edges(case["files"], case.get("main", "main.py"))
+        errs = check_calibration(case, dyn, info["static"]) if "static" in info else ["no static result"]
+        for e in errs:
+            print("HARNESS-ERROR: property=%s calibration %s: %s" % (ID, os.path.basename(path), e))
+        if errs:
+            return 2
+    sigs = [(sig, b["what"]) for sig, b in col.buckets.items()]
+    code = 0
+    for sig, what in sigs:
+        kind, _ = common.classify(ID, tuple(sig))
+        if kind == "known" and not os.environ.get("VERIF_CONFIRM"):
+            print("KNOWN-FINDING: property=%s %s" % (ID, what))
+            continue
+        print("VIOLATION property=%s replay=%s" % (ID, path))
+        print("  signature=%s %s" % (list(sig), what))
+        code = 1
+    if code == 0 and not sigs:
+        print("%s replay %s: holds" % (ID, path))
+    return code
+
+
+def main(tier, seed, t0):
+    col = Collector()
+    # 1. calibration programs and committed regression inputs
+    for path in common.replay_files(ID):
+        rec = common.load_replay(path)
+        case = rec["case"]
+        out, info = run_case(col, case)
+        col.label("replayed")
+        if case.get("calibration"):
+            col.label("calibration")
+            dyn = dynamic_edges(case["files"], case.get("main", "main.py"))
+            if "static" not in info:
+                col.error("calibration %s: no static result (%s)" % (os.path.basename(path), info))
+                continue
+            for e in check_calibration(case, dyn, info["static"]):
+                col.error("calibration %s: %s" % (os.path.basename(path), e))
+    if col.errors:
+        return common.finish(ID, tier, seed, col, t0, RULE, ASSUMPTIONS)
+    # 2. generated projects
+    avoid = avoid_set()
+    if tier == "quick":
+        total, p2_pct = 416, 0
+    else:
+        total, p2_pct = 20000, 20
+    nsh = max(1, common.NCPU) * (1 if tier == "quick" else 4)
+    per = (total + nsh - 1) // nsh
+    args = [(common.shard_seed(seed, i), per, avoid, p2_pct, True) for i in range(nsh)]
+    col.merge(common.run_shards(gen_shard, args))
+    col.notes.append("stepped-over (kind, via) pairs: %s" % (avoid,))
+    return common.finish(ID, tier, seed, col, t0, RULE, ASSUMPTIONS)
+
+
+# ---------------------------------------------------------------------------------------------
+# reduction of a failing project (used for new signatures and for preparing minimal replays)
+
+def _to_lines(case):
+    kinds = case.get("kinds", {})
+    out = {}
+    for rel, text in case["files"].items():
+        out[rel] = [(t, kinds.get("%s:%d" % (rel, i + 1))) for i, t in enumerate(text.splitlines())]
+    return out
+
+
+def _from_lines(lines, main, p2):
+    files, kinds = {}, {}
+    for rel, ls in lines.items():
+        files[rel] = "\n".join(t for t, _ in ls) + "\n"
+        for i, (t, k) in enumerate(ls):
+            if k is not None:
+                kinds["%s:%d" % (rel, i + 1)] = k
+    return {"files": files, "main": main, "kinds": kinds, "p2": p2}
+
+
+def _units(ls):
+    """removable units of one file: (start, end) index ranges = a line plus the following deeper-indented lines"""
+    units = []
+    n = len(ls)
+    for i, (t, _) in enumerate(ls):
+        if not t.strip():
+            continue
+        ind = len(t) - len(t.lstrip())
+        j = i + 1
+        while j < n and (not ls[j][0].strip() or len(ls[j][0]) - len(ls[j][0].lstrip()) > ind):
+            j += 1
+        while j > i + 1 and not ls[j - 1][0].strip():
+            j -= 1
+        units.append((i, j))
+    return units
+
+
+def reduce_case(case, sig, max_lian_runs=120, log=None):
+    """Greedy unit removal preserving (a) a clean CPython run, (b) a discrepancy with signature sig."""
+    sig = tuple(sig)
+    main = case.get("main", "main.py")
+    p2 = bool(case.get("p2"))
+    runs = [0]
+
+    def fails(lines):
+        cand = _from_lines(lines, main, p2)
+        if main not in cand["files"]:
+            return False
+        try:
+            for rel, text in cand["files"].items():
+                compile(text, rel, "exec")
+        except SyntaxError:
+            return False
+        dyn = dynamic_edges(cand["files"], main)
+        if dyn["error"]:
+            return False
+        if runs[0] >= max_lian_runs:
+            return False
+        runs[0] += 1
+        out, info = evaluate(cand, dyn=dyn)
+        return any(tuple(s) == sig for s, _ in out)
+
+    lines = _to_lines(case)
+    changed = True
+    while changed and runs[0] < max_lian_runs:
+        changed = False
+        # whole files first
+        for rel in sorted(lines):
+            if rel == main or len(lines) == 1:
+                continue
+            cand = {k: v for k, v in lines.items() if k != rel}
+            if fails(cand):
+                lines = cand
+                changed = True
+        for rel in sorted(lines):
+            units = sorted(_units(lines[rel]), key=lambda u: (-(u[1] - u[0]), u[0]))
+            removed = []
+            for (a, b) in units:
+                if any(not (b <= ra or a >= rb) for ra, rb in removed):
+                    continue
+                shift = sum(rb - ra for ra, rb in removed if rb <= a)
+                cur = lines[rel]
+                cand_ls = cur[:a - shift] + cur[b - shift:]
+                cand = dict(lines)
+                cand[rel] = cand_ls
+                if fails(cand):
+                    lines = cand
+                    removed.append((a, b))
+                    changed = True
+                    if log:
+                        log("removed %s:%d-%d (lian runs %d)" % (rel, a + 1, b, runs[0]))
+    return _from_lines(lines, main, p2)
